@@ -88,30 +88,7 @@ Definition xtransport_size (ms : list xmatrix) : nat :=
   | [] => 0%nat
   end.
 
-(* ---------- reserved_time.rs :: create_reserved_times_fn (DynamicTransportCost::new) ---------- *)
-(* the ReservedTimeSpan of a required break: (is offset, (earliest, latest)); duration is kept aside and never compared *)
-Definition req_span (b : brk) : option (bool * tw) :=
-  match b with
-  | BReqOff e l _ => Some (true, (e, l))
-  | BReqExact e l _ => match tm_val e, tm_val l with Some a, Some b => Some (false, (a, b)) | _, _ => None end
-  | _ => None
-  end.
-Fixpoint req_spans (bs : list brk) : list (bool * tw) :=
-  match bs with [] => [] | b :: r => match req_span b with Some s => s :: req_spans r | None => req_spans r end end.
-Fixpoint windows2_any {A} (f : A -> A -> bool) (l : list A) : bool :=
-  match l with
-  | a :: ((b :: _) as r) => f a b || windows2_any f r
-  | _ => false
-  end.
-Definition spans_fail (spans : list (bool * tw)) : bool :=
-  windows2_any (fun a b => negb (Bool.eqb (fst a) (fst b))) spans                       (* different time span types *)
-  || windows2_any intersects (sort_by_start (map snd spans)).                            (* reserved times have intersections *)
-(* one actor per (vehicle id, shift): a vehicle type without ids has no actor *)
-Definition reserved_fails (d : doc) : bool :=
-  existsb (fun v => match v_ids v with
-                    | [] => false
-                    | _ => existsb (fun s => spans_fail (req_spans (olist (sh_breaks s)))) (v_shifts v)
-                    end) (d_vehicles d).
+(* reserved_time.rs :: create_reserved_times_fn (DynamicTransportCost::new): Model/Validation.v :: reserved_fails *)
 
 (* ---------- job_reader.rs :: read_recharges ---------- *)
 Definition recharge_panics (d : xdoc) : bool :=
